@@ -34,7 +34,7 @@ TWINS = ("dataclass", "enum", "namedtuple", "typeddict", "strsub")
 
 def bounds(tier):
     return dict(tier=tier, grammar_schemas=len(_schemas(tier)), modes=["module", "local"], functional_kinds=list(KINDS), shapes=list(SHAPES),
-                twin_kinds=list(TWINS), overridden_fields=dict(annotations=list(OVERRIDE_WRAPS), overrides=list(OVERRIDES)), definition_sites=["function-local", "functional API not bound to its module", "twin qualified name"])
+                twin_kinds=list(TWINS), overridden_fields=dict(annotations=list(OVERRIDE_WRAPS), overrides=list(OVERRIDES)), definition_sites=["function-local", "functional API not bound to its module", "twin qualified name", "same __qualname__ in two modules", "distinct non-ASCII names of equal length"])
 
 
 def _schemas(tier):
@@ -46,6 +46,9 @@ def units(tier):
     out = [("grammar", d, mode) for d in _schemas(tier) for mode in ("module", "local")]
     out += [("functional", k, s, site) for k in KINDS for s in SHAPES for site in ("local", "unbound")]
     out += [("twin", k, s) for k in TWINS for s in ("fields", "tuple", "union", "list_of_each")]
+    # distinct classes whose names coincide only in part: the same __qualname__ in two modules; different non-ASCII names of equal length
+    out += [("twin", k, s, naming) for k in TWINS for s in ("fields", "tuple", "union", "list_of_each", "generic_args")
+            for naming in ("other-module", "nonascii", "nonascii-other-module") if not (s == "generic_args" and k in ("typeddict", "strsub"))]
     # a field whose conversion is overridden: the (un)packer registry never visits the annotation, yet its rendered name is
     # still loaded by the error-reporting lines
     out += [("override", w, o) for w in OVERRIDE_WRAPS for o in OVERRIDES]
@@ -449,20 +452,50 @@ def run_functional(unit):
     return res
 
 
+class _second_module:
+    def __init__(self, ctx):
+        self.name = ctx.modname + "_b"
+
+    def __enter__(self):
+        import types as _types
+        self.mod = _types.ModuleType(self.name)
+        sys.modules[self.name] = self.mod
+        return self.mod
+
+    def __exit__(self, *a):
+        sys.modules.pop(self.name, None)
+        return False
+
+
 def run_twin(unit):
-    _, kind, shape = unit
+    _, kind, shape = unit[:3]
+    naming = unit[3] if len(unit) > 3 else "same-name"
+    site = "twin" if naming == "same-name" else "twin-" + naming
     res = core.UnitResult()
 
     def V(clause, oc, detail):
-        res.violation(f"{clause}|twin|{kind}|{shape}|{oc}", clause, oc, dict(unit=unit, facts=dict(kind=kind, shape=shape, site="twin")), detail)
+        res.violation(f"{clause}|{site}|{kind}|{shape}|{oc}", clause, oc, dict(unit=unit, facts=dict(kind=kind, shape=shape, site=site)), detail)
     from mashumaro import DataClassDictMixin
     from mashumaro.codecs.basic import BasicDecoder, BasicEncoder
     k2 = {"dataclass": "make_dataclass", "enum": "enum", "namedtuple": "namedtuple", "typeddict": "typeddict", "strsub": "strsub"}[kind]
-    with space.Ctx() as ctx:
-        T1, v1, _ = make_kind(k2, "X", ctx.modname, tag=0)
-        T2, v2, _ = make_kind(k2, "X", ctx.modname, tag=1)
-        setattr(ctx.mod, "X", T1)     # the module attribute can only name one of them
-        if shape == "fields":
+    with space.Ctx() as ctx, _second_module(ctx) as mod2:
+        n1, n2 = ("X", "X") if not naming.startswith("nonascii") else ("\u0417\u0430\u043a\u0430\u0437", "\u0422\u043e\u0432\u0430\u0440")
+        m2 = mod2.__name__ if naming.endswith("other-module") else ctx.modname
+        T1, v1, _ = make_kind(k2, n1, ctx.modname, tag=0)
+        T2, v2, _ = make_kind(k2, n2, m2, tag=1)
+        setattr(ctx.mod, n1, T1)     # with one shared name in one module the module attribute can only name one of them
+        if naming != "same-name":
+            setattr(mod2 if naming.endswith("other-module") else ctx.mod, n2, T2)     # here both are importable by their own names
+        if shape == "generic_args":
+            # two specialisations of one generic dataclass whose arguments are the two classes
+            ctx.ns["T"] = typing.TypeVar("T")
+            ctx.ns["Generic"] = typing.Generic
+            G = ctx.execute("G", "@dataclass\nclass G(Generic[T]):\n    x: T\n    xs: List[T]\n")
+            h = make_dataclass("Pair", [("p", G[T1]), ("q", G[T2])], namespace={"__module__": ctx.modname}, module=ctx.modname)
+            ctx.ns["Pair"] = h
+            value = h(G(v1[0], list(v1)), G(v2[0], list(v2)))
+            extract = lambda r: [(r.p.x, T1), (r.q.x, T2)] + [(x, T1) for x in r.p.xs] + [(x, T2) for x in r.q.xs]   # noqa: E731
+        elif shape == "fields":
             h = make_dataclass("Pair", [("p", T1), ("q", T2)], namespace={"__module__": ctx.modname}, module=ctx.modname)
             ctx.ns["Pair"] = h
             value = h(v1[0], v2[0])
@@ -501,7 +534,7 @@ def run_twin(unit):
                     continue
                 wrong = [(x, T) for x, T in extract(r[1]) if (type(x) is not T and kind not in ("typeddict", "strsub"))]
                 if wrong:
-                    V("not-the-annotated-class", "twin", f"{ep}: {wrong[0][0]!r} has class id {id(type(wrong[0][0]))}, annotation is id {id(wrong[0][1])} "
+                    V("not-the-annotated-class", site, f"{ep}: {wrong[0][0]!r} has class id {id(type(wrong[0][0]))}, annotation is id {id(wrong[0][1])} "
                                                          f"(both named {wrong[0][1].__module__}.{wrong[0][1].__qualname__})")
                     continue
                 if kind in ("dataclass",) and [getattr(x, "t", None) for x, _ in extract(r[1])] != [getattr(x, "t", None) for x, _ in extract(value)]:
